@@ -31,6 +31,10 @@ type Chg struct {
 	Prev   []int `json:"prev"`
 	Snap   int   `json:"snap"`
 	IsSnap bool  `json:"is_snap,omitempty"`
+	// Bad: the change fails objectTreeValidator.validateChange on its own (only used by "otv" cases, whose trees
+	// are built with the real validator): 1 = its ACL head id is unknown to the ACL, 2 = its identity has no
+	// permission in the ACL. 0 = valid (owner identity, the ACL's head).
+	Bad int `json:"bad,omitempty"`
 }
 
 type World struct {
@@ -42,6 +46,9 @@ type World struct {
 	creator *objecttree.MockChangeCreator
 	inst    int
 	dbCount int
+	// identities for trees built with the real validator: the ACL owner (may write) and a stranger (no account)
+	ownerID    []byte
+	strangerID []byte
 }
 
 func NewWorld() *World {
@@ -51,6 +58,12 @@ func NewWorld() *World {
 	w.acl, err = list.NewInMemoryDerivedAcl("spaceId", keys)
 	must(err)
 	w.aclHead = w.acl.Head().Id
+	w.ownerID, err = keys.SignKey.GetPublic().Marshall()
+	must(err)
+	stranger, err := accountdata.NewRandom()
+	must(err)
+	w.strangerID, err = stranger.SignKey.GetPublic().Marshall()
+	must(err)
 	w.creator = objecttree.NewMockChangeCreator(func() anystore.DB { return w.db })
 	w.freshDB()
 	// CreateNewTreeStorage installs the non-verifying StorageChangeBuilder (package-level variable)
@@ -105,6 +118,8 @@ type Inst struct {
 	w    *World
 	pref string
 	raws map[int]*treechangeproto.RawTreeChangeWithId
+	// real: raw changes carry a real identity and the tree is built with the real validator
+	real bool
 }
 
 func (w *World) NewInst() *Inst {
@@ -150,7 +165,9 @@ func (in *Inst) Raw(c Chg, pad int) *treechangeproto.RawTreeChangeWithId {
 		return r
 	}
 	var r *treechangeproto.RawTreeChangeWithId
-	if c.Snap == 0 && len(c.Prev) == 0 {
+	if in.real {
+		r = in.rawReal(c)
+	} else if c.Snap == 0 && len(c.Prev) == 0 {
 		r = in.w.creator.CreateRoot(in.S(c.ID), in.w.aclHead)
 	} else {
 		var data []byte
@@ -163,6 +180,40 @@ func (in *Inst) Raw(c Chg, pad int) *treechangeproto.RawTreeChangeWithId {
 	return r
 }
 
+const unknownAclHead = "verif-unknown-acl-head"
+
+// rawReal assembles the raw change by hand (the MockChangeCreator cannot set an identity): same wire shape as
+// changeBuilder.Build / BuildRoot, no signature, the id is the rendered abstract id (the trees are built with the
+// non-verifying change builder, so neither the CID nor the signature is checked; the VALIDATOR is the real one).
+func (in *Inst) rawReal(c Chg) *treechangeproto.RawTreeChangeWithId {
+	w := in.w
+	var payload []byte
+	var err error
+	if c.Snap == 0 && len(c.Prev) == 0 {
+		payload, err = (&treechangeproto.RootChange{AclHeadId: w.aclHead, Identity: w.ownerID}).MarshalVT()
+	} else {
+		aclHead, identity := w.aclHead, w.ownerID
+		switch c.Bad {
+		case 1:
+			aclHead = unknownAclHead
+		case 2:
+			identity = w.strangerID
+		}
+		payload, err = (&treechangeproto.TreeChange{
+			TreeHeadIds:    in.Ss(c.Prev),
+			AclHeadId:      aclHead,
+			SnapshotBaseId: in.S(c.Snap),
+			IsSnapshot:     c.IsSnap,
+			Identity:       identity,
+			DataType:       "mockDataType",
+		}).MarshalVT()
+	}
+	must(err)
+	raw, err := (&treechangeproto.RawTreeChange{Payload: payload}).MarshalVT()
+	must(err)
+	return &treechangeproto.RawTreeChangeWithId{RawChange: raw, Id: in.S(c.ID)}
+}
+
 // Peer is a real object tree over real storage.
 type Peer struct {
 	in      *Inst
@@ -173,12 +224,27 @@ type Peer struct {
 
 type addSeqSetter interface{ SetAddSeq(seq *atomic.Uint64) }
 
-func (w *World) NewPeer(root Chg) *Peer {
+func (w *World) NewPeer(root Chg) *Peer { return w.newPeer(root, false) }
+
+// NewPeerV: the object tree is built with objecttree.BuildMigratableObjectTree = the REAL objectTreeValidator
+// (permissions of the change's identity at its ACL head, ACL heads monotone along previous ids) over the world's
+// real ACL + the non-verifying change builder (ids stay the order-preserving rendered abstract ids).
+func (w *World) NewPeerV(root Chg) *Peer { return w.newPeer(root, true) }
+
+func (in *Inst) build(st objecttree.Storage) (objecttree.ObjectTree, error) {
+	if in.real {
+		return objecttree.BuildMigratableObjectTree(st, in.w.acl)
+	}
+	return objecttree.BuildTestableTree(st, in.w.acl)
+}
+
+func (w *World) newPeer(root Chg, real bool) *Peer {
 	in := w.NewInst()
+	in.real = real
 	st, err := objecttree.CreateStorage(ctx, in.Raw(root, 0), in.w.heads, in.w.db)
 	must(err)
 	st.(addSeqSetter).SetAddSeq(&atomic.Uint64{})
-	tr, err := objecttree.BuildTestableTree(st, in.w.acl)
+	tr, err := in.build(st)
 	must(err)
 	return &Peer{in: in, storage: st, tree: tr, rootID: root.ID}
 }
@@ -190,7 +256,7 @@ func (p *Peer) Reopen() error {
 		return err
 	}
 	st.(addSeqSetter).SetAddSeq(&atomic.Uint64{})
-	tr, err := objecttree.BuildTestableTree(st, p.in.w.acl)
+	tr, err := p.in.build(st)
 	if err != nil {
 		return err
 	}
